@@ -2,6 +2,7 @@
 """replay of C20 counter-models on the real biotite application wrappers"""
 import json
 import os
+import time
 import sys
 import traceback
 
@@ -132,13 +133,16 @@ def replay_localapp(rec, m):
                     pass
             return bad, (f"join() called in state {s0.name}: {out}; state {before[0].name} -> {app._state.name}, "
                          f"clean_up calls {before[1]} -> {app.cleanups} (AppStateError and no side effect expected: {not allowed})")
-        if ("LocalApp.join" in ob and "TimeoutError" in ob) or "LocalApp.cancel" in ob or "Application.cancel" in ob:
+        if ("LocalApp.join" in ob and "TimeoutError" in ob) or "LocalApp.cancel" in ob or "Application.cancel" in ob \
+                or "kill_iff_cancelled" in ob:
             import subprocess as sp
-            app = LProbe(os.path.join(fix, "sleeper"))
+            # a child that ignores SIGTERM: only kill() ends it
+            app = LProbe(os.path.join(fix, "stubborn"))
             app.start()
+            time.sleep(0.3)          # let the shell install its trap
             proc = app.get_process()
             try:
-                if "cancel" in ob:
+                if "cancel" in ob:           # (also clean_up's kill_iff_cancelled: reached through cancel())
                     app.cancel()
                     out = "cancel() returned"
                 else:
